@@ -34,12 +34,12 @@ def typed_bounds(prog, f, b):
     return None
 
 
-def run(prog, pred=None, floor=1):
-    reviewed = arith.load_table("cast_reviewed.json")
-    obs = []
-    n = 0
+def _records(prog):
+    if getattr(prog, "_cast_records", None) is not None:
+        return prog._cast_records
+    out = []
     for f in sorted(prog.fns.values(), key=lambda f: f.path):
-        if not arith.in_scope(f) or (pred is not None and not pred(f)):
+        if not arith.in_scope(f):
             continue
         per = {}
         for b in sorted(f.live_blocks):
@@ -48,40 +48,57 @@ def run(prog, pred=None, floor=1):
             for s in f.stmts(b):
                 if s[0] != "a" or s[2][0] != "cast" or s[2][1] != "FloatToInt":
                     continue
-                n += 1
                 d = f.desc_op(s[2][2])
                 c = core(d)
-                lower = upper = False
-                for fact in arith.cmp_facts(f, b):
-                    if len(fact) != 3 or not isinstance(fact[1], tuple) or not isinstance(fact[2], tuple):
-                        continue
-                    op, a, bb = fact
-                    ca, cb = core(a), core(bb)
-                    if ca == c and cb != c:
-                        if op in ("Ge", "Gt"):
-                            lower = True
-                        if op in ("Le", "Lt"):
-                            upper = True
-                    elif cb == c and ca != c:
-                        if op in ("Le", "Lt"):
-                            lower = True
-                        if op in ("Ge", "Gt"):
-                            upper = True
                 root = f.root or f.path
                 base = "%s:%s->%s" % (root, re.sub(r"_\d+", "_", show(c)[:60]), s[2][3])
                 k = per.get(base, 0) + 1
                 per[base] = k
-                key = base + ("#%d" % k if k > 1 else "")
-                st = site(f, s[3])
-                typed = typed_bounds(prog, f, b)
-                if typed:
-                    obs.append(ok(RULE, key, st, typed))
-                elif lower and upper:
-                    obs.append(ok(RULE, key, st, "range-checked on both sides before the cast"))
-                elif key in reviewed and reviewed[key].get("class") == "structural":
-                    obs.append(ok(RULE, key, st, "reviewed: " + reviewed[key]["reason"]))
-                else:
-                    why = reviewed.get(key, {}).get("reason", "")
-                    obs.append(bad(RULE, key, st, "`%s as %s` saturates silently for values outside the integer's range (NaN becomes 0): %s"
-                                   % (show(strip(d))[:70], s[2][3], why or "no dominating range test on both sides, not a reviewed instance")))
+                out.append((f, b, s, d, c, base + ("#%d" % k if k > 1 else "")))
+    prog._cast_records = out
+    return out
+
+
+def run(prog, pred=None, floor=1):
+    reviewed = arith.load_table("cast_reviewed.json")
+    obs = []
+    n = 0
+    recs = _records(prog)
+    moved = arith.MovedSites(reviewed, {r[5] for r in recs})
+    for f, b, s, d, c, key in recs:
+        if pred is not None and not pred(f):
+            continue
+        n += 1
+        lower = upper = False
+        for fact in arith.cmp_facts(f, b):
+            if len(fact) != 3 or not isinstance(fact[1], tuple) or not isinstance(fact[2], tuple):
+                continue
+            op, a, bb = fact
+            ca, cb = core(a), core(bb)
+            if ca == c and cb != c:
+                if op in ("Ge", "Gt"):
+                    lower = True
+                if op in ("Le", "Lt"):
+                    upper = True
+            elif cb == c and ca != c:
+                if op in ("Le", "Lt"):
+                    lower = True
+                if op in ("Ge", "Gt"):
+                    upper = True
+        st = site(f, s[3])
+        typed = typed_bounds(prog, f, b)
+        if typed:
+            obs.append(ok(RULE, key, st, typed))
+        elif lower and upper:
+            obs.append(ok(RULE, key, st, "range-checked on both sides before the cast"))
+        elif key in reviewed and reviewed[key].get("class") == "structural":
+            obs.append(ok(RULE, key, st, "reviewed: " + reviewed[key]["reason"]))
+        else:
+            mv = None if key in reviewed else moved.take(key, lambda e: e.get("class") == "structural")
+            if mv:
+                obs.append(ok(RULE, key, st, "reviewed (site moved within its module): " + mv["reason"]))
+                continue
+            why = reviewed.get(key, {}).get("reason", "")
+            obs.append(bad(RULE, key, st, "`%s as %s` saturates silently for values outside the integer's range (NaN becomes 0): %s"
+                           % (show(strip(d))[:70], s[2][3], why or "no dominating range test on both sides, not a reviewed instance")))
     return obs, [Floor(RULE, "float->int casts", n, floor)], {"float_to_int_casts": n}
